@@ -2,8 +2,9 @@
    The pooled scratch state of the JSON scanner is modelled explicitly (the pool may hand out any recycled
    state or a fresh one); the bufio.Reader pool of the CSV check is covered by the hypothesis that
    Reset discards all state.  That the caller's buffer is never written is not expressible over immutable
-   lists: it is established on the implementation (hash before / after, poisoned capacity). *)
-From Verif Require Import Base.Bytes Model.Json Model.Pool Model.Detect Proofs.BytesP Proofs.PoolP.
+   lists: it is established on the implementation (hash before / after, poisoned capacity) and by the regenerated
+   obligation at the end of this file (no statement of the library writes through a []byte parameter). *)
+From Verif Require Import Base.Bytes Model.Json Model.Pool Model.Detect Proofs.BytesP Proofs.PoolP Gen.InputWrites.
 From Coq Require Import Lia.
 
 (* the model's Detect looks at the header only: inputs with the same first `limit` bytes get the same result,
@@ -46,3 +47,13 @@ Example C04_example :
   run tk 4096 [([], b "{""a"":{""b"":[{""c"":"); ([], b "{""a"":1}")] [None; Some 0] [] =
   [parse 4096 tk [] (b "{""a"":{""b"":[{""c"":"); parse 4096 tk [] (b "{""a"":1}")].
 Proof. vm_compute. reflexivity. Qed.
+
+(* regenerated obligation (harness/inwrites.go, conservative syntactic taint analysis over the CURRENT source of mimetype.go,
+   mime.go, tree.go, internal/magic, internal/json, internal/charset): no element assignment, copy, append or
+   buffer-filling call whose target is a []byte / readBuf parameter or a local derived from one *)
+Theorem C04_no_statement_writes_through_an_input_slice : input_writes = [].
+Proof. reflexivity. Qed.
+Print Assumptions C04_no_statement_writes_through_an_input_slice.
+
+Example C04_write_scan_is_not_empty : 100 <= input_write_functions_scanned /\ In "internal/magic/archive.go"%string input_write_scope.
+Proof. split; [vm_compute; repeat constructor|vm_compute; tauto]. Qed.
